@@ -84,6 +84,9 @@ func vstrd(v ssa.Value, d int, seen map[ssa.Value]bool) string {
 			if (xc && !yc) || (xc == yc && x > y) {
 				x, y, op = y, x, m
 			}
+			if x == y && mirrorOp[op].String() < op.String() {
+				op = mirrorOp[op]
+			}
 		}
 		return "(" + x + " " + op.String() + " " + y + ")"
 	case *ssa.FieldAddr:
